@@ -70,7 +70,7 @@ def internal_shapes_arg(spec):
     return d or None
 
 
-def build_funcs(spec, hook=None, cache=None, declared_sizes=None):
+def build_funcs(spec, hook=None, cache=None, declared_sizes=None, ishape_int=False, pf_kwargs=None):
     """declared_sizes: sizes used ONLY for the internal_shape declared on the PipeFunc (the bodies return spec["sizes"])"""
     pfs = []
     for k, fn in enumerate(spec["funcs"]):
@@ -79,15 +79,19 @@ def build_funcs(spec, hook=None, cache=None, declared_sizes=None):
         kw = {}
         if fn["internal"] and fn.get("ishape_via", "map") == "pipefunc":
             kw["internal_shape"] = ishape if declared_sizes is None else tuple(declared_sizes[a] for a in fn["internal"])
+            if ishape_int and len(kw["internal_shape"]) == 1:
+                kw["internal_shape"] = kw["internal_shape"][0]  # the int spelling of a one-axis internal shape
         if cache is not None:
             kw["cache"] = bool(cache[k]) if isinstance(cache, (list, tuple)) else bool(cache)
+        if pf_kwargs:
+            kw.update(pf_kwargs)
         pfs.append(PipeFunc(body, fn["outs"][0] if len(fn["outs"]) == 1 else tuple(fn["outs"]), mapspec=spec_str(fn), **kw))
     return pfs
 
 
 def build(spec, hook=None, **pipeline_kw) -> Pipeline:
     with contextlib.redirect_stdout(io.StringIO()):
-        return Pipeline(build_funcs(spec, hook=hook, cache=pipeline_kw.pop("cache", None)), **pipeline_kw)
+        return Pipeline(build_funcs(spec, hook=hook, cache=pipeline_kw.pop("cache", None), pf_kwargs=pipeline_kw.pop("pf_kwargs", None)), **pipeline_kw)
 
 
 # ------------------------------------------------------------------------------------------------
